@@ -28,12 +28,16 @@ class Node:
 class NameCache:
     """no header labels: every row / column is referred to by number / letter"""
 
-    def __init__(self, tables):
+    def __init__(self, tables, model=None):
         self.row_ranges = {t: NoNames() for t in tables}
         self.col_ranges = {t: NoNames() for t in tables}
+        self.model = model
+        self.table_names = []
 
     def refresh(self):
-        pass
+        # the real cache recomputes its copy of the table names whenever it is dirty; this one is always dirty
+        if self.model is not None:
+            self.table_names = self.model.table_names()
 
 
 class NoNames:
@@ -47,7 +51,7 @@ class RefModel(Cacheable):
     def __init__(self, sheets):
         """sheets: list of (sheet name, [(table id, table name), ...])"""
         self.sheets = sheets
-        self.name_ref_cache = NameCache([tid for _, ts in sheets for tid, _ in ts])
+        self.name_ref_cache = NameCache([tid for _, ts in sheets for tid, _ in ts], self)
 
     def table_names(self):
         return [tn for _, ts in self.sheets for _, tn in ts]
@@ -301,7 +305,9 @@ class NamedModel(Cacheable):
     def table_names(self):
         return [self.names[t] for t in (7, 8, 9)]
 
-    def table_name(self, table_id):
+    def table_name(self, table_id, value=None):
+        if value is not None:
+            self.names[table_id] = value
         return self.names[table_id]
 
     def sheet_name(self, sheet_id):
@@ -394,6 +400,60 @@ def h09c_named(l70, l71, l80, l81, l90, l91, n8, n9, target, tcol, absolute, row
     assert matches == [(target, tcol)]
 
 
+def resolve_label_ref(text, names, labels, sheet_of, absolute):
+    """reader of a printed column reference: the list of (table, column) it can mean, narrower scopes shadowing wider"""
+    parts = text.split("::")
+    last = parts[-1]
+    if absolute:
+        assert last[0] == "$"
+        last = last[1:]
+    assert len(last) == 1
+    if len(parts) == 1:
+        tables = None
+    elif len(parts) == 2:
+        here = [t for t in (7, 8, 9) if sheet_of[t] == 0 and names[t] == parts[0]]
+        tables = here if here else [t for t in (7, 8, 9) if names[t] == parts[0]]
+    else:
+        assert len(parts) == 3
+        tables = [t for t in (7, 8, 9) if "S%d" % sheet_of[t] == parts[0] and names[t] == parts[1]]
+    if "A" <= last <= "Z":
+        assert tables is not None
+        return [(t, ord(last) - 65) for t in tables]
+
+    def cols(ts):
+        return [(t, c) for t in ts for c in (0, 1) if labels[t][c] == last]
+    if tables is not None:
+        return cols(tables)
+    matches = cols([7])
+    if not matches:
+        matches = cols([8])
+    if not matches:
+        matches = cols([9])
+    return matches
+
+
+def h09d_rename(l80, l81, l90, l91, n8, n9, new9, target, tcol, renamed):
+    """history: a formula is read, then a table is renamed through Table.name, then the formula is read again - the second
+    reading is qualified according to the names the document has NOW"""
+    from numbers_parser.document import Table
+    labels = {7: ["p", "q"], 8: [l80, l81], 9: [l90, l91]}
+    names = {7: "H", 8: "T" + n8, 9: "T" + n9}
+    sheet_of = {7: 0, 8: 0, 9: 1}
+    assume(n8 != new9 or renamed != 8)
+    m = NamedModel(names, labels)
+    node = Node(AST_column=Node(column=tcol, absolute=False), NOFIELD_AST_row=Node(row=0, absolute=False),
+                AST_cross_table_reference_extra_info=Node(table_id=target))
+    first = str(m.node_to_ref(7, 1, 0, node))
+    assert resolve_label_ref(first, names, labels, sheet_of, False) == [(target, tcol)]
+    tbl = object.__new__(Table)
+    tbl._model = m
+    tbl._table_id = renamed
+    tbl.name = "T" + new9                       # the real Table.name setter
+    assume(not (renamed == 8 and names[8] == "H"))            # sibling names stay unique within a sheet (C19)
+    second = str(m.node_to_ref(7, 1, 0, node))
+    assert resolve_label_ref(second, m.names, labels, sheet_of, False) == [(target, tcol)]
+
+
 class NumbersUUIDStub:
     def __init__(self, v):
         self.hex = v
@@ -436,6 +496,12 @@ HARNESSES = [
             stubs=["model stub: table data = header cells with a formatted_value; the real ScopedNameRefCache / CellRange compute scopes "
                    "and text; NumbersUUID(...).hex identity"],
             outside=["labels containing operator characters or quotes, labels that look like A1 references"],
+            patches=[(modelmod, "NumbersUUID", NumbersUUIDStub)]),
+    Harness("H09d", h09d_rename,
+            dict(l80=StrDom(1, LABELS), l81=StrDom(1, LABELS), l90=StrDom(1, LABELS), l91=StrDom(1, LABELS), n8=StrDom(1, [(120, 121)]),
+                 n9=StrDom(1, [(120, 121)]), new9=StrDom(1, [(120, 121)]), target=Cases([8, 9]), tcol=Cases([0, 1]), renamed=Cases([8, 9])),
+            bounds="as H09c (column labels of the two target tables symbolic), read - rename one of the two target tables - read again",
+            stubs=["model stub as H09c; the rename goes through the real Table.name setter"],
             patches=[(modelmod, "NumbersUUID", NumbersUUIDStub)]),
     Harness("H09b", h09b_qualify,
             dict(n_host=StrDom(1, ALNUM), n_same=StrDom(1, ALNUM), n_other=StrDom(1, ALNUM), n_third=StrDom(1, ALNUM), n_fourth=StrDom(1, ALNUM), target=Cases([8, 9, 10, 11]), s2=StrDom(1, ALNUM), s3=StrDom(1, ALNUM)),
